@@ -952,3 +952,120 @@ func ruleCertGen(c *Ctx) {
 		c.R.Undecided("R-TLS/certgen", "generateCert", "anchor", "no function calling x509.CreateCertificate found")
 	}
 }
+
+// ---------- R-TLS/automtls: AutoMTLS is never skipped or undone ----------
+
+// ruleAutoMTLSGate —
+// (server) in Serve, whenever the client certificate variable
+// (os.Getenv("PLUGIN_CLIENT_CERT")) is non-empty and no TLS provider gave a
+// configuration, every path to the point where the server starts serving
+// assigns the mutual-TLS configuration literal: no further condition (e.g.
+// "the certificate parsed") may let the plugin fall back to plaintext.
+// (client) the only stores to ClientConfig.TLSConfig in the module assign a
+// tls.Config literal (the AutoMTLS configuration); it is never reset to nil or
+// replaced by something else after it was set.
+func ruleAutoMTLSGate(c *Ctx) {
+	p := c.P
+	// --- server ---
+	if f := p.Fn("Serve"); f != nil {
+		info := f.Pkg.TypesInfo
+		g := p.Graph(f)
+		var certVar, cfgVar *types.Var
+		var getN, assignN, serveN *Node
+		for _, m := range g.Nodes {
+			as, ok := m.Ast.(*ast.AssignStmt)
+			if ok && len(as.Lhs) == 1 && len(as.Rhs) == 1 {
+				if call, isC := ast.Unparen(as.Rhs[0]).(*ast.CallExpr); isC && p.CalleeName(f, call) == "os.Getenv" && len(call.Args) == 1 {
+					if k, isK := constString(info, call.Args[0]); isK && k == "PLUGIN_CLIENT_CERT" {
+						certVar, _ = identObj(info, as.Lhs[0]).(*types.Var)
+						getN = m
+					}
+				}
+				if u, isU := ast.Unparen(as.Rhs[0]).(*ast.UnaryExpr); isU && u.Op == token.AND {
+					if cl, isCL := u.X.(*ast.CompositeLit); isCL && isTLSConfigType(info.TypeOf(cl)) {
+						cfgVar, _ = identObj(info, as.Lhs[0]).(*types.Var)
+						assignN = m
+					}
+				}
+			}
+			if _, isGo := m.Ast.(*ast.GoStmt); isGo {
+				for _, call := range callsIn(m.Ast) {
+					if p.CalleeName(f, call) == modPath+".ServerProtocol.Serve" {
+						serveN = m
+					}
+				}
+			}
+		}
+		if certVar == nil || cfgVar == nil || getN == nil || assignN == nil || serveN == nil {
+			c.R.Undecided("R-TLS/automtls", f.Name, "anchors", fmt.Sprintf("client-cert variable=%v tls config literal=%v serve site=%v", certVar != nil, assignN != nil, serveN != nil))
+		} else {
+			cut := func(e *Edge) bool {
+				at, ok := p.EdgeAtom(f, e)
+				if !ok {
+					return false
+				}
+				if at.Kind == "cmp" && at.Op == token.EQL && identObj(info, at.X) == certVar {
+					if s, isS := constString(info, at.Y); isS && s == "" {
+						return true
+					}
+				}
+				if at.Kind == "nil" && at.Op == token.NEQ && identObj(info, at.X) == cfgVar {
+					return true
+				}
+				return false
+			}
+			seen := g.ReachAfter(getN, func(m *Node) bool { return m == assignN }, cut)
+			if _, bad := seen[serveN]; bad {
+				c.R.Violate("R-TLS/automtls", p.Pos(assignN.Ast), f.Name, "server AutoMTLS is not conditional on anything but the certificate being present",
+					"with PLUGIN_CLIENT_CERT set and no TLS provider there is a path on which the plugin starts serving without the mutual-TLS configuration: it then serves plaintext to anybody", p.PathTo(seen, serveN))
+			} else {
+				c.R.Hold("R-TLS/automtls", p.Pos(assignN.Ast), f.Name, "server AutoMTLS is not conditional on anything but the certificate being present", "with a non-empty client certificate and no provider configuration every path to `go server.Serve` assigns the mutual-TLS tls.Config literal", true)
+			}
+		}
+	} else {
+		c.R.Undecided("R-TLS/automtls", "Serve", "anchor", "function not found")
+	}
+	// --- client ---
+	tlsF := p.FieldObj(modPath, "ClientConfig", "TLSConfig")
+	if tlsF == nil {
+		c.R.Undecided("R-TLS/automtls", "ClientConfig.TLSConfig", "anchor", "field not found")
+		return
+	}
+	nStores := 0
+	for _, f := range p.Funcs {
+		if !notTesting(p, f) {
+			continue
+		}
+		info := f.Pkg.TypesInfo
+		walkNoLit(f.Body, func(x ast.Node) bool {
+			as, ok := x.(*ast.AssignStmt)
+			if !ok {
+				return true
+			}
+			for i, l := range as.Lhs {
+				if SelField(info, l) != tlsF {
+					continue
+				}
+				nStores++
+				okStore := false
+				if len(as.Rhs) == len(as.Lhs) {
+					r := ast.Unparen(p.Deref(f, as.Rhs[i]))
+					if u, isU := r.(*ast.UnaryExpr); isU && u.Op == token.AND {
+						if cl, isCL := u.X.(*ast.CompositeLit); isCL && isTLSConfigType(info.TypeOf(cl)) {
+							okStore = true
+						}
+					}
+				}
+				if okStore {
+					c.R.Hold("R-TLS/automtls", p.Pos(as), f.Name, "store to ClientConfig.TLSConfig", "assigns a tls.Config literal (audited by R-TLS/config)", true)
+				} else {
+					c.R.Violate("R-TLS/automtls", p.Pos(as), f.Name, "store to ClientConfig.TLSConfig", "the client's TLS configuration is overwritten with something other than the audited tls.Config literal (e.g. nil): an AutoMTLS client would then talk plaintext or unauthenticated TLS", nil)
+				}
+			}
+			return true
+		})
+	}
+	if nStores == 0 {
+		c.R.Undecided("R-TLS/automtls", "Client.Start", "instance-floor", "no store to ClientConfig.TLSConfig found (the AutoMTLS configuration is expected)")
+	}
+}
